@@ -36,6 +36,25 @@ theorem validEncoded_drop (a : Str) (n : Nat) (h : validEncoded a = true) : vali
   simp only [validEncoded, List.all_eq_true] at *
   intro c hc; exact h c (List.mem_of_mem_drop hc)
 
+theorem escape_plain (a : Str) (h : plain a = true) : escape .path a = a := by
+  induction a with
+  | nil => rfl
+  | cons c cs ih =>
+    simp only [plain, List.all_cons, Bool.and_eq_true, Bool.not_eq_true'] at h
+    have := ih (by simpa [plain] using h.2)
+    simp [escape, h.1.2, this]
+
+/-- a plain path without a raw-path hint is its own escaped form -/
+theorem escapedPath_plain (u : URL) (hr : u.rawPath = []) (h : plain u.path = true) : escapedPath u = u.path := by
+  unfold escapedPath
+  simp only [hr, ne_eq, not_true_eq_false, decide_false, Bool.false_and, Bool.false_eq_true, if_false]
+  split
+  · rename_i h42; simp only [beq_iff_eq] at h42; exact h42.symm
+  · exact escape_plain _ h
+
+theorem plain_append (a b : Str) : plain (a ++ b) = (plain a && plain b) := by
+  simp [plain, List.all_append]
+
 /-! ### `replace1` / `contains` on templates -/
 
 theorem isPrefixOf_self_append (a b : Str) : a.isPrefixOf (a ++ b) = true := by
